@@ -67,6 +67,8 @@ func NewHTTPS2HTTPSPlugin(_ PluginContext, options v1.ClientPluginOptions) (Plug
 			req := r.Out
 			req.URL.Scheme = "https"
 			req.URL.Host = p.opts.LocalAddr
+			// forward the query exactly as received (see pkg/util/vhost/http.go)
+			req.URL.RawQuery = r.In.URL.RawQuery
 			if p.opts.HostHeaderRewrite != "" {
 				req.Host = p.opts.HostHeaderRewrite
 			}
